@@ -68,7 +68,7 @@ var logPrefixes = []string{
 // path generalisation of profile / name / target.
 var neutralDirs = []string{"/opt", "/srv/www", "/etc", "/var/cache/foo", "/media/disk", "/mnt/q", "/boot"}
 var neutralWords = []string{"foo", "Bar", "x-y_z", "lib_so_q", "data", "K", "zz9", "mm", "conf.d"}
-var hostileBits = []string{" ", "  ", "   ", "\\", "=", "#", ",", "é", "日本", " = ", "a b", "==", "#!", "\"", "\t", "'", ":", ";", "(", ")"}
+var hostileBits = []string{"#101", "#1234", "/./", " ", "  ", "   ", "\\", "=", "#", ",", "é", "日本", " = ", "a b", "==", "#!", "\"", "\t", "'", ":", ";", "(", ")"}
 
 func genNeutralPath(t *rapid.T, label string, hostile bool) string {
 	p := pick(t, label+"dir", neutralDirs)
@@ -79,6 +79,9 @@ func genNeutralPath(t *rapid.T, label string, hostile bool) string {
 			w += pick(t, label+"hb", hostileBits) + pick(t, label+"w2", neutralWords)
 		}
 		p += "/" + w
+	}
+	if chance(t, label+"dir", 5) {
+		p += "/" // a directory access: the name ends in a slash
 	}
 	if hostile && chance(t, label+"tail", 4) {
 		// a hostile byte as the very last (or, after the slash, first) byte of the value
